@@ -646,6 +646,27 @@ func (f *HistFamily) requestOrders(set []int) [][]int {
 }
 
 func (f *HistFamily) proofSets(tracked []int) [][]int {
+	if f.Or.ProofSets == "ends" {
+		// very large forests: the first tracked leaf, the last eight (the smallest trees), first+last,
+		// and the last eight together
+		var out [][]int
+		n := len(tracked)
+		if n == 0 {
+			return nil
+		}
+		out = append(out, []int{tracked[0]})
+		lo := n - 8
+		if lo < 1 {
+			lo = 1
+		}
+		for _, a := range tracked[lo:] {
+			out = append(out, []int{a})
+		}
+		if n > 1 {
+			out = append(out, []int{tracked[0], tracked[n-1]}, append([]int(nil), tracked[lo:]...))
+		}
+		return out
+	}
 	if f.Or.ProofSets == "tall" {
 		// singletons, adjacent pairs, first+last, all tracked
 		var out [][]int
